@@ -12,7 +12,7 @@ use std::cmp::Ordering;
 
 use super::error::{Result, SvmError};
 use super::permutable_kernel::{PermutableKernel, PermutableKernelOneClass};
-use super::solver_smo::SolverState;
+use super::solver_smo::{SeparatingHyperplane, SolverState};
 use super::SolverParams;
 use super::{Float, Svm, SvmValidParams};
 use linfa_kernel::Kernel;
@@ -147,6 +147,11 @@ pub fn fit_nu<F: Float>(
     let mut res = solver.solve();
 
     let r = res.r.unwrap();
+
+    // the pre-combined hyperplane of the linear kernel was built from the unscaled coefficients
+    if let SeparatingHyperplane::Linear(ref mut w) = res.sep_hyperplane {
+        w.mapv_inplace(|x| x / r);
+    }
 
     res.alpha = res
         .alpha
